@@ -25,7 +25,8 @@ CLAIMS = {
             "(C03_sys_load_crash_item; a seventh invariant layer about dead workers with a ghost history component); and, for every execution without an undecodable message, the ledger "
             "pool + books + handled completions + crash items = collection + re-queued in every reachable state, and at the end of a session (no stop reason, budget not exceeded) the tests "
             "completed by the workers ++ crash items = collection ++ re-queued items, pool empty, nobody registered: every other test ran exactly once and the run did not end before "
-            "(C03_sys_load_ledger_with_crashes, C03_sys_load_accounting_at_end; non-vacuity replayed by the kernel from a simulated crash schedule)",
+            "(C03_sys_load_ledger_with_crashes, C03_sys_load_accounting_at_end; non-vacuity replayed by the kernel from a simulated crash schedule); ghost-free: completions by the workers ++ "
+            "PUBLISHED crash reports = collection ++ re-queued tests, as test ids (C03_sys_load_every_test_completed_or_reported, via loopOnce_ghost: an iteration publishes exactly the crash reports of the items remove_node charged)",
             "contract refinement + ledger invariant with crash ghost; whole-system invariant by induction over the steps of the composed transition system (Lean 4) ; differential correspondence incl. crash/replacement sequences; the system model replays every simulated step"),
     "C05": ("Lean theorems over the two-thread worker model, for every interleaving of receiver steps (put/steal/shutdown, also behind the marker) with "
             "main-thread steps: executed/held/queued tests form a subsequence of the received stream whose missing elements are exactly the replied ones; "
